@@ -48,8 +48,95 @@ class C12(F.Check):
             F.Kernel("c12_bool_sign", "int32_t", [("bool", "x")], "return %sbool_sign(x);" % D, mode="wrap", family="bool_sign"),
             F.Kernel("c12_is_square", "bool", [(u, "n")], "return %sis_perfect_square(n);" % D, mode="ub", family="is_perfect_square"),
             F.Kernel("c12_gcd", u, [(u, "a"), (u, "b")], "return %sgcd(a, b);" % D, mode="ub", family="gcd"),
+            F.Kernel("c12_pow_mod", u, [(u, "a"), (u, "e"), (u, "n")], "return %spow_mod(a, e, n);" % D, mode="wrap", family="pow_mod"),
+            F.Kernel("c12_jacobi", "int32_t", [("int64_t", "a"), (u, "n")], "return %sjacobi_symbol(a, n);" % D, mode="ub", family="jacobi_symbol"),
+            F.Kernel("c12_mr", "int32_t", [(u, "a"), (u, "n")], "return static_cast<int>(%smiller_rabin(a, n));" % D, mode="wrap", family="miller_rabin"),
+            F.Kernel("c12_fpf", u, [(u, "n")], "return %sfind_prime_factor(n);" % D, mode="ub", family="find_prime_factor"),
         ]
+        ks += self.factor_path_kernels()
         ks += self.closed_kernels()
+        self.closed += self.fpf_closed
+        return ks
+
+    # ---- find_prime_factor on inputs chosen per path through the function, by an independent re-implementation of its steps
+    def factor_path_kernels(self):
+        """closed: find_prime_factor(n) is a prime divisor of n, for inputs selected so that every path is taken: trial division hit,
+        early exit p*p > n, prime beyond the table, Pollard rho returning a prime, rho returning a COMPOSITE divisor (the re-split loop,
+        one and several rounds), and rho's first parameter failing (factor == n, next t)."""
+        import sympy
+        from math import gcd
+
+        def rho(n):
+            """Pollard rho with Brent cycle detection exactly as documented in factoring.hh; returns (factor, t used)"""
+            t = 1
+            while t < n // 2:
+                f = lambda x: (x * x + t) % n   # noqa
+                maxc, cyc, tort = 1, 1, 2
+                hare = f(tort)
+                g = gcd(n, abs(tort - hare))
+                while g == 1:
+                    if maxc == cyc:
+                        tort, maxc, cyc = hare, maxc * 2, 0
+                    hare = f(hare)
+                    cyc += 1
+                    g = gcd(n, abs(tort - hare))
+                if g < n:
+                    return g, t
+                t += 1
+            return n, t
+        rng = self.rng
+        big = [int(p) for p in sympy.primerange(547, 1200)]
+        classes = {"trial_hit": [2 * 3 * 5 * 7 * 11 * 13, 541 * 547, 3 * (2 ** 61 - 1)], "early_exit_prime": [2, 3, 541, 7919, 292681 - 2],
+                   "prime_beyond_table": [int(sympy.nextprime(541 ** 2)), 2 ** 61 - 1, 18446744073709551557]}
+        rho_prime, rho_comp1, rho_comp2, rho_t = [], [], [], []
+        tries = 0
+        want = (4, 8, 3, 3) if self.tier == "quick" else (8, 30, 8, 6)
+        while tries < 6000 and (len(rho_comp1) < want[1] or len(rho_comp2) < want[2] or len(rho_t) < want[3] or len(rho_prime) < want[0]):
+            tries += 1
+            k = rng.choice([2, 3, 4, 4, 4, 5, 5])
+            n = 1
+            for p in (rng.choice(big) for _ in range(k)):
+                n *= p
+            if n >= 1 << 64:
+                continue
+            f, t = rho(n)
+            if t > 1 and len(rho_t) < want[3]:
+                rho_t.append(n)
+            if sympy.isprime(f):
+                if len(rho_prime) < want[0]:
+                    rho_prime.append(n)
+                continue
+            f2, _ = rho(f)
+            if sympy.isprime(f2):
+                if len(rho_comp1) < want[1]:
+                    rho_comp1.append(n)
+            elif len(rho_comp2) < want[2]:
+                rho_comp2.append(n)
+        classes.update(rho_prime_divisor=rho_prime, rho_composite_divisor_one_resplit=rho_comp1, rho_composite_divisor_more_resplits=rho_comp2,
+                       rho_parameter_retry=rho_t)
+        # 64-bit: four primes near 2^16 (the divisor rho finds is often a product of two of them)
+        p16 = [65521, 65519, 65497, 65479, 65449, 65447, 65437]
+        for _ in range(3 if self.tier == "quick" else 10):
+            ps = rng.sample(p16, 4)
+            n = ps[0] * ps[1] * ps[2] * ps[3]
+            if n < 1 << 64:
+                f, t = rho(n)
+                classes["rho_composite_divisor_one_resplit" if not sympy.isprime(f) else "rho_prime_divisor"].append(n)
+        self.extra_cov["find_prime_factor_path_classes"] = {c: len(v) for c, v in classes.items()}
+        ks = []
+        self.fpf_closed = []
+        seen = set()
+        for cls, nums in classes.items():
+            for n in nums:
+                if n in seen or n < 2:
+                    continue
+                seen.add(n)
+                primes = sorted(int(p) for p in sympy.factorint(n))
+                cond = " || ".join("v == %dull" % p for p in primes)
+                k = F.Kernel("c12_fpfc_%d" % n, "bool", [], "constexpr std::uintmax_t v = au::detail::find_prime_factor(%dull); return %s;" % (n, cond),
+                             key={"n": n, "path_class": cls, "prime_divisors": primes}, family="find_prime_factor_paths", native=False)
+                ks.append(k)
+                self.fpf_closed.append(k)
         return ks
 
     # ---- closed factorisation facts
@@ -399,6 +486,113 @@ class C12(F.Check):
                   timeout=120, note="IR re-interpreted at %d bits: result divides both and every common divisor divides it; Euclid loop unwound 14 (Fibonacci bound 12) with assertion" % WG)
         ob.reinterpreted = True
         obs.append(ob)
+        # ---------------- find_prime_factor, full 64-bit width, every n below 2^KF (the trial-division phase incl. its early exit)
+        import sympy
+        KF = 12 if self.tier == "quick" else 16
+        plist = [int(p) for p in sympy.primerange(2, (1 << ((KF + 1) // 2)) + 1)]
+
+        def fn_fpf(K, n, KF=KF, plist=plist):
+            if isinstance(K["c12_fpf"], F.NativeHandle):
+                e = K["c12_fpf"](n)
+                return T.TRUE, T.and_(T.not_(e.ub), T.eq(e.ret, T.const_bv(min(sympy.factorint(n.attr)) if n.attr > 1 else 0, 64)))
+            e = K["c12_fpf"](n, unwind=len(plist) + 3, inline_depth=0)
+            spec = n        # least prime factor: the first prime <= sqrt(2^KF) that divides n, else n itself (then n is prime)
+            for p in reversed(plist):
+                spec = T.ite(T.eq(T.bvop("bvurem", n, T.const_bv(p, 64)), T.const_bv(0, 64)), T.const_bv(p, 64), spec)
+            pre = T.and_(T.bvcmp("ult", n, T.const_bv(1 << KF, 64)), T.bvcmp("ugt", n, T.const_bv(1, 64)))
+            return pre, T.and_(T.not_(e.ub), T.not_(e.unwind), T.eq(e.ret, spec))
+        obs.append(F.Ob("find_prime_factor:all_n_below_2^%d" % KF, [("n", T.BV(64))], fn_fpf, kernels=["c12_fpf"], routes=["z3-bv", "cvc5-bv"], timeout=300,
+                        note="64-bit code, 1 < n < 2^%d: the result is the least prime factor of n (n itself iff n is prime); spec is the chain over the %d primes "
+                             "<= 2^%d WITHOUT the early exit; loop unwound %d with assertion; Pollard rho is not reached below 541^2 and is covered by closed "
+                             "path-class facts only" % (KF, len(plist), (KF + 1) // 2, len(plist) + 3)))
+
+        # ---------------- jacobi_symbol, miller_rabin, pow_mod: the real functions (with everything they call inlined) at reduced width vs tables
+        def table(idx, vals, wout):
+            """balanced ITE tree over the bits of idx; vals[i] is the value at idx == i"""
+            def rec(lo, bit):
+                if bit < 0:
+                    return T.const_bv(vals[lo], wout)
+                a_, b_ = rec(lo, bit - 1), rec(lo + (1 << bit), bit - 1)
+                return a_ if a_ is b_ else T.ite(T.eq(T.extract(idx, bit, bit), T.const_bv(1, 1)), b_, a_)
+            return rec(0, T.width(idx) - 1)
+        WJ = 5 if self.tier == "quick" else 6
+
+        def fn_jac(K, a, n, WJ=WJ):
+            if isinstance(K["c12_jacobi"], F.NativeHandle):
+                sa = a.attr - (1 << WJ) if a.attr >= (1 << (WJ - 1)) else a.attr
+                e = K["c12_jacobi"](T.const_bv(sa % (1 << 64), 64), T.zext(n, 64))
+                return T.const_bool(n.attr % 2 == 1), T.and_(T.not_(e.ub), T.eq(e.ret, T.const_bv(int(sympy.jacobi_symbol(sa, n.attr)) % (1 << 32), 32)))
+            e = K["c12_jacobi"](a, n, unwind=(40 if WJ == 5 else 64), inline_depth=3, width_map={64: WJ, 32: WJ})
+            vals = []
+            for nn in range(1 << WJ):
+                for aa in range(1 << WJ):
+                    sa = aa - (1 << WJ) if aa >= (1 << (WJ - 1)) else aa
+                    vals.append((int(sympy.jacobi_symbol(sa, nn)) if nn % 2 == 1 else 0) % (1 << WJ))
+            spec = table(T.concat(n, a), vals, WJ)
+            pre = T.and_(T.eq(T.extract(n, 0, 0), T.const_bv(1, 1)), T.ne(a, T.const_bv(1 << (WJ - 1), WJ)))
+            return pre, T.and_(T.not_(e.ub), T.not_(e.unwind), T.eq(e.ret, spec))
+        ob = F.Ob("jacobi_symbol:at_%d_bits" % WJ, [("a", T.BV(WJ)), ("n", T.BV(WJ))], fn_jac, kernels=["c12_jacobi"], routes=["z3-bv", "cvc5-bv"], timeout=200,
+                  note="IR re-interpreted at %d bits (int64 a signed, a != minimum; n odd): equals the Jacobi symbol (a/n) from an independent table, no UB, "
+                       "loops unwound with assertion" % WJ)
+        ob.reinterpreted = True
+        obs.append(ob)
+        WM = 4 if self.tier == "quick" else 5
+        COMP, PRIME, BAD = 0, 1, 2      # enum PrimeResult { COMPOSITE, PROBABLY_PRIME, BAD_INPUT }
+
+        def mr_model(a_, n_):
+            if a_ < 2 or n_ < a_ + 2 or n_ % 2 == 0:
+                return BAD
+            d, s_ = n_ - 1, 0
+            while d % 2 == 0:
+                d //= 2
+                s_ += 1
+            x = pow(a_, d, n_)
+            if x == 1:
+                return PRIME
+            for _ in range(s_):
+                if x == n_ - 1:
+                    return PRIME
+                x = x * x % n_
+            return COMP
+
+        def fn_mr(K, a, n, WM=WM):
+            if isinstance(K["c12_mr"], F.NativeHandle):
+                e = K["c12_mr"](T.zext(a, 64), T.zext(n, 64))
+                return T.TRUE, T.and_(T.not_(e.ub), T.eq(e.ret, T.const_bv(mr_model(a.attr, n.attr), 32)))
+            e = K["c12_mr"](a, n, unwind=6 * WM, inline_depth=3 * WM, width_map={64: WM, 32: WM})
+            vals = [mr_model(aa, nn) for nn in range(1 << WM) for aa in range(1 << WM)]
+            spec = table(T.concat(n, a), vals, WM)
+            pre = T.bvcmp("ult", a, T.const_bv((1 << WM) - 2, WM))      # a + 2 must not wrap (documented: n >= a + 2)
+            return pre, T.and_(T.not_(e.ub), T.not_(e.unwind), T.eq(e.ret, spec))
+        ob = F.Ob("miller_rabin:at_%d_bits" % WM, [("a", T.BV(WM)), ("n", T.BV(WM))], fn_mr, kernels=["c12_mr"], routes=["z3-bv", "cvc5-bv"], timeout=300,
+                  note="IR re-interpreted at %d bits, pow_mod / mul_mod (recursive) / decompose inlined: BAD_INPUT, PROBABLY_PRIME (n prime or a strong pseudoprime "
+                       "to base a) or COMPOSITE exactly as the definition says; no UB and no unsigned wrap-around anywhere" % WM)
+        ob.reinterpreted = True
+        if self.tier == "thorough":      # measured: 60-130 s; the quick tier keeps jacobi_symbol, gcd, mul_mod and find_prime_factor
+            obs.append(ob)
+        WP = 4
+
+        def fn_pm(K, a, x, n, WP=WP):
+            if isinstance(K["c12_pow_mod"], F.NativeHandle):
+                e = K["c12_pow_mod"](T.zext(a, 64), T.zext(x, 64), T.zext(n, 64))
+                return T.const_bool(n.attr >= 1), T.and_(T.not_(e.ub), T.eq(e.ret, T.const_bv(pow(a.attr, x.attr, n.attr) if n.attr else 0, 64)))
+            e = K["c12_pow_mod"](a, x, n, unwind=3 * WP, inline_depth=3 * WP, width_map={64: WP, 32: WP})
+            z = lambda t: T.zext(t, 2 * WP)   # noqa
+            N = z(n)
+            r = T.bvop("bvurem", T.const_bv(1, 2 * WP), N)
+            am = T.bvop("bvurem", z(a), N)
+            spec = r
+            for k in range(1, 1 << WP):       # naive repeated multiplication (not square-and-multiply), 2W-bit arithmetic: no wrap possible
+                r = T.bvop("bvurem", T.bvop("bvmul", r, am), N)
+                spec = T.ite(T.bvcmp("uge", x, T.const_bv(k, WP)), r, spec)
+            return T.ne(n, T.const_bv(0, WP)), T.and_(T.not_(e.ub), T.not_(e.unwind), T.eq(z(e.ret), spec))
+        ob = F.Ob("pow_mod:at_%d_bits" % WP, [("a", T.BV(WP)), ("e", T.BV(WP)), ("n", T.BV(WP))], fn_pm, kernels=["c12_pow_mod"], routes=["z3-bv", "cvc5-bv"],
+                  timeout=300,
+                  note="IR re-interpreted at %d bits with mul_mod (recursive) and add_mod inlined, all base, exponent, modulus >= 1: equals base^exp mod n computed by "
+                       "repeated multiplication in 2W-bit arithmetic; no UB, no unsigned wrap-around" % WP)
+        ob.reinterpreted = True
+        if self.tier == "thorough":
+            obs.append(ob)
         # ---------------- closed
         for k in self.closed:
             if K[k.name].kernel.dropped:
